@@ -223,4 +223,555 @@ example : setState lifecycle "setup" "report" = .error .transition := by decide
 example : setState lifecycle "setup" "nowhere" = .error .unknown := by decide
 example : (runReqs lifecycle "initialization" ["setup", "report", "post_setup"]) = ("post_setup", [true, false, true]) := by decide
 
+/-! ## LESSONS audit: late phases, every entry point, requests from inside a listener -/
+
+/-! ### phases added after the lifecycle has started to move -/
+
+theorem nextOf_cons (a : String) (l : List String) (s : String) :
+    nextOf (a :: l) s = if a = s then l.head? else nextOf l s := by
+  cases l with
+  | nil => simp [nextOf]
+  | cons b r => simp [nextOf]
+
+theorem nextOf_append_some (A B : List String) (s x : String) (h : nextOf A s = some x) :
+    nextOf (A ++ B) s = some x := by
+  induction A with
+  | nil => simp [nextOf] at h
+  | cons a l ih =>
+    rw [nextOf_cons] at h
+    rw [List.cons_append, nextOf_cons]
+    by_cases e : a = s
+    · simp only [e, if_true] at h ⊢
+      cases l with
+      | nil => simp at h
+      | cons b r => simpa using h
+    · simp only [e, if_false] at h ⊢; exact ih h
+
+theorem nextOf_append_none (A B : List String) (s : String) (hm : s ∈ A) (h : nextOf A s = none) :
+    nextOf (A ++ B) s = B.head? := by
+  induction A with
+  | nil => cases hm
+  | cons a l ih =>
+    rw [nextOf_cons] at h
+    rw [List.cons_append, nextOf_cons]
+    by_cases e : a = s
+    · simp only [e, if_true] at h ⊢
+      cases l with
+      | nil => rfl
+      | cons b r => simp at h
+    · simp only [e, if_false] at h ⊢
+      have : s ∈ l := by
+        cases hm with
+        | head => exact absurd rfl e
+        | tail _ h' => exact h'
+      exact ih this h
+
+theorem addPhase_eq (lc lc' : LifeCycle) (p : Phase) (ha : addPhase lc p = some lc') :
+    lc' = lc ++ [p] ∧ ∀ s ∈ p.states, s ∉ allStates lc := by
+  unfold addPhase at ha
+  split at ha; · cases ha
+  split at ha; · cases ha
+  split at ha; · cases ha
+  split at ha; · cases ha
+  rename_i _ _ _ h3
+  cases ha
+  refine ⟨rfl, ?_⟩
+  intro s hs hin
+  apply h3
+  simp only [List.any_eq_true]
+  exact ⟨s, hs, by simpa using hin⟩
+
+/-- a phase added LATER (at any moment, e.g. while the lifecycle rests in its last state) neither
+legalises nor forbids any transition between states that already existed. -/
+theorem addPhase_old_transitions (lc lc' : LifeCycle) (p : Phase) (ha : addPhase lc p = some lc')
+    (cur tgt : String) (hc : cur ∈ allStates lc) (ht : tgt ∈ allStates lc) :
+    validNext lc' cur tgt = validNext lc cur tgt := by
+  obtain ⟨rfl, hdis⟩ := addPhase_eq lc lc' p ha
+  have hall : allStates (lc ++ [p]) = allStates lc ++ p.states := by
+    simp [allStates, List.flatMap_append]
+  have hnext : (nextOf (allStates (lc ++ [p])) cur == some tgt) = (nextOf (allStates lc) cur == some tgt) := by
+    rw [hall]
+    cases h : nextOf (allStates lc) cur with
+    | some x => rw [nextOf_append_some _ _ _ _ h]
+    | none =>
+      rw [nextOf_append_none _ _ _ hc h]
+      have : (p.states.head? == some tgt) = false := by
+        cases hp : p.states with
+        | nil => simp
+        | cons a r =>
+          have hne : a ≠ tgt := by
+            intro e; subst e
+            exact hdis a (by rw [hp]; exact List.mem_cons_self) ht
+          simp [hne]
+      rw [this]; simp
+  have hloop : loopNextOf (lc ++ [p]) cur = loopNextOf lc cur := by
+    unfold loopNextOf
+    rw [List.find?_append]
+    cases h : lc.find? (fun q => q.loop && q.states.getLast? == some cur) with
+    | some q => simp
+    | none =>
+      have : (p.loop && p.states.getLast? == some cur) = false := by
+        cases hl : p.states.getLast? with
+        | none => simp
+        | some z =>
+          have hz : z ∈ p.states := List.mem_of_getLast? hl
+          have hne : z ≠ cur := by
+            intro e; subst e; exact hdis z hz hc
+          simp [hne]
+      simp [List.find?, this]
+  unfold validNext
+  rw [hnext, hloop]
+
+/-- … and the only way out of the old states into the new phase is from a state without a linear
+successor (the last one) to the new phase's first state. -/
+theorem addPhase_entry (lc lc' : LifeCycle) (p : Phase) (ha : addPhase lc p = some lc')
+    (cur tgt : String) (hc : cur ∈ allStates lc) (ht : tgt ∈ p.states)
+    (hv : validNext lc' cur tgt = true) :
+    nextOf (allStates lc) cur = none ∧ p.states.head? = some tgt := by
+  obtain ⟨rfl, hdis⟩ := addPhase_eq lc lc' p ha
+  have hall : allStates (lc ++ [p]) = allStates lc ++ p.states := by
+    simp [allStates, List.flatMap_append]
+  have hnotold : tgt ∉ allStates lc := hdis tgt ht
+  unfold validNext at hv
+  rw [hall] at hv
+  have hloop : (loopNextOf (lc ++ [p]) cur == some tgt) = false := by
+    unfold loopNextOf
+    rw [List.find?_append]
+    cases h : lc.find? (fun q => q.loop && q.states.getLast? == some cur) with
+    | some q =>
+      have hq := List.mem_of_find?_eq_some h
+      simp only [Option.some_or]
+      cases hh : q.states.head? with
+      | none => simp
+      | some z =>
+        have hz : z ∈ allStates lc := by
+          simp only [allStates, List.mem_flatMap]
+          exact ⟨q, hq, List.mem_of_head? hh⟩
+        have : z ≠ tgt := by intro e; subst e; exact hnotold hz
+        simp [this]
+    | none =>
+      have : (p.loop && p.states.getLast? == some cur) = false := by
+        cases hl : p.states.getLast? with
+        | none => simp
+        | some z =>
+          have hz : z ∈ p.states := List.mem_of_getLast? hl
+          have hne : z ≠ cur := by
+            intro e; subst e; exact hdis z hz hc
+          simp [hne]
+      simp [List.find?, this]
+  rw [hloop, Bool.or_false] at hv
+  cases h : nextOf (allStates lc) cur with
+  | some x =>
+    rw [nextOf_append_some _ _ _ _ h] at hv
+    have hx : x = tgt := by simpa using hv
+    -- the linear successor of an old state inside the old order is an old state
+    exfalso
+    have : ∀ (A : List String) (s y : String), nextOf A s = some y → y ∈ A := by
+      intro A
+      induction A with
+      | nil => intro s y h; simp [nextOf] at h
+      | cons a l ih =>
+        intro s y h
+        rw [nextOf_cons] at h
+        by_cases e : a = s
+        · simp only [e, if_true] at h
+          exact List.mem_cons_of_mem _ (List.mem_of_head? h)
+        · simp only [e, if_false] at h
+          exact List.mem_cons_of_mem _ (ih s y h)
+    exact hnotold (hx ▸ this _ _ _ h)
+  | none =>
+    rw [nextOf_append_none _ _ _ hc h] at hv
+    exact ⟨rfl, by simpa using hv⟩
+
+/-! ### every action list moves the lifecycle along legal transitions only -/
+
+/-- reachability along legal transitions -/
+inductive Reach (lc : LifeCycle) : String → String → Prop
+  | refl (s) : Reach lc s s
+  | step {s t u} : Reach lc s t → validNext lc t u = true → (allStates lc).contains u = true → Reach lc s u
+
+theorem Reach.trans {lc : LifeCycle} {a b c : String} (h1 : Reach lc a b) (h2 : Reach lc b c) : Reach lc a c := by
+  induction h2 with
+  | refl => exact h1
+  | step _ hv hc ih => exact Reach.step ih hv hc
+
+/-- lifecycle state of a result, completed or aborted -/
+def stOf : Except (Fail × Ctl) Ctl → String
+  | .ok c => c.st
+  | .error (_, c) => c.st
+
+/-- only `set` touches the lifecycle state -/
+theorem actCtl_st_other (c : Ctl) (a : Viv.Gen.Act) (h : ∀ t, a ≠ .set t) : stOf (actCtl c a) = c.st := by
+  cases a with
+  | set t => exact absurd rfl (h t)
+  | emit e => simp only [actCtl]; repeat' split
+              all_goals rfl
+  | create => simp only [actCtl]; repeat' split
+              all_goals rfl
+  | getPop => simp only [actCtl]; repeat' split
+              all_goals rfl
+  | stepBack => simp only [actCtl]; repeat' split
+                all_goals rfl
+  | stepFwd => simp only [actCtl]; repeat' split
+               all_goals rfl
+  | freeze => rfl
+  | setupComponents => simp only [actCtl]; repeat' split
+                       all_goals rfl
+  | loopBegin ph => simp only [actCtl]; repeat' split
+                    all_goals rfl
+  | loopEnd => rfl
+  | setVar => rfl
+  | emitVar => rfl
+  | callStep => rfl
+
+/-- one framework action: the state moves by at most one legal transition; an error never moves it -/
+theorem actCtl_reach (c : Ctl) (a : Viv.Gen.Act) :
+    match actCtl c a with
+    | .ok c' => Reach lifecycle c.st c'.st
+    | .error (_, c') => c'.st = c.st := by
+  by_cases hs : ∃ t, a = .set t
+  · obtain ⟨t, rfl⟩ := hs
+    simp only [actCtl]
+    cases h : setState lifecycle c.st t with
+    | ok t' =>
+      obtain ⟨rfl, hc, hv⟩ := (setState_ok_iff lifecycle c.st t t').mp h
+      exact Reach.step (Reach.refl _) hv hc
+    | error e => cases e <;> rfl
+  · have := actCtl_st_other c a (fun t ht => hs ⟨t, ht⟩)
+    cases h : actCtl c a with
+    | ok c' => rw [h] at this; simp only [stOf] at this; simp only; rw [this]; exact Reach.refl _
+    | error e => obtain ⟨f, c'⟩ := e; rw [h] at this; exact this
+
+/-- EVERY list of framework actions (any method body, however it is rewritten) leaves the lifecycle in a
+state reached from the starting state along legal transitions only – whether it completes or aborts. -/
+theorem runCtl_reach (acts : List Viv.Gen.Act) (c : Ctl) :
+    match runCtl acts c with
+    | .ok c' => Reach lifecycle c.st c'.st
+    | .error (_, c') => Reach lifecycle c.st c'.st := by
+  induction acts generalizing c with
+  | nil => exact Reach.refl _
+  | cons a rest ih =>
+    simp only [runCtl]
+    have ha := actCtl_reach c a
+    cases h : actCtl c a with
+    | ok c1 =>
+      rw [h] at ha
+      have := ih c1
+      simp only
+      cases h2 : runCtl rest c1 with
+      | ok c2 => rw [h2] at this; exact ha.trans this
+      | error e => rw [h2] at this; obtain ⟨f, c2⟩ := e; exact ha.trans this
+    | error e =>
+      rw [h] at ha
+      obtain ⟨f, c1⟩ := e
+      simp only at ha ⊢
+      rw [ha]; exact Reach.refl _
+
+theorem performCtl_reach (c : Ctl) (r : Req) : Reach lifecycle c.st (performCtl c r).2.st := by
+  cases r with
+  | set t =>
+    simp only [performCtl]
+    cases h : setState lifecycle c.st t with
+    | ok t' =>
+      obtain ⟨rfl, hc, hv⟩ := (setState_ok_iff lifecycle c.st t t').mp h
+      exact Reach.step (Reach.refl _) hv hc
+    | error e => exact Reach.refl _
+  | call m =>
+    simp only [performCtl, callCtl]
+    have := runCtl_reach (expand (skeletonOf m)) c
+    cases h : runCtl (expand (skeletonOf m)) c with
+    | ok c' => rw [h] at this; exact this
+    | error e => rw [h] at this; obtain ⟨f, c'⟩ := e; exact this
+
+/-- … and the same with a request performed from inside a listener, whatever the request is (a direct
+state change or a context method, legal or not) and whichever event it is armed on. -/
+theorem runCtlN_reach (acts : List Viv.Gen.Act) (c : Ctl) (n : Nest) :
+    match runCtlN acts (c, n) with
+    | .ok (c', _) => Reach lifecycle c.st c'.st
+    | .error (_, c', _) => Reach lifecycle c.st c'.st := by
+  induction acts generalizing c n with
+  | nil => exact Reach.refl _
+  | cons a rest ih =>
+    simp only [runCtlN]
+    have ha := actCtl_reach c a
+    cases h : actCtl c a with
+    | ok c1 =>
+      rw [h] at ha
+      simp only
+      by_cases hcond : n.ev ≠ "" ∧ a = .emit n.ev
+      · rw [if_pos hcond]
+        have hp := performCtl_reach c1 n.req
+        have := ih { (performCtl c1 n.req).2 with log := (performCtl c1 n.req).2.log ++ [marker (performCtl c1 n.req).1 (performCtl c1 n.req).2.st] }
+          { ev := "", req := n.req, done := some ((performCtl c1 n.req).1, (performCtl c1 n.req).2.st) }
+        cases hr : runCtlN rest _ with
+        | ok x =>
+          obtain ⟨c2, n2⟩ := x
+          rw [hr] at this
+          have this' : Reach lifecycle (performCtl c1 n.req).2.st c2.st := this
+          exact (ha.trans hp).trans this'
+        | error e =>
+          obtain ⟨f, c2, n2⟩ := e
+          rw [hr] at this
+          have this' : Reach lifecycle (performCtl c1 n.req).2.st c2.st := this
+          exact (ha.trans hp).trans this'
+      · rw [if_neg hcond]
+        have := ih c1 n
+        cases hr : runCtlN rest (c1, n) with
+        | ok x =>
+          obtain ⟨c2, n2⟩ := x
+          rw [hr] at this
+          have this' : Reach lifecycle c1.st c2.st := this
+          exact ha.trans this'
+        | error e =>
+          obtain ⟨f, c2, n2⟩ := e
+          rw [hr] at this
+          have this' : Reach lifecycle c1.st c2.st := this
+          exact ha.trans this'
+    | error e =>
+      rw [h] at ha
+      obtain ⟨f, c1⟩ := e
+      simp only at ha ⊢
+      rw [ha]; exact Reach.refl _
+
+/-- with nothing armed the nested-aware run IS the plain run -/
+theorem runCtlN_unarmed (acts : List Viv.Gen.Act) (c : Ctl) (n : Nest) (hn : n.ev = "") :
+    runCtlN acts (c, n) = (match runCtl acts c with
+      | .ok c' => .ok (c', n)
+      | .error (f, c') => .error (f, c', n)) := by
+  induction acts generalizing c with
+  | nil => rfl
+  | cons a rest ih =>
+    simp only [runCtlN, runCtl]
+    cases h : actCtl c a with
+    | ok c1 => simp only [hn, ne_eq, not_true_eq_false, false_and, if_false]; exact ih c1
+    | error e => obtain ⟨f, c1⟩ := e; rfl
+
+/-- the `Sim`-level run the driver executes projects onto the control-level run the theorems are about -/
+theorem act_ctl (s : Sim) (a : Viv.Gen.Act) : ctlOf (act s a) = actCtl s.ctl a := by
+  unfold act
+  cases h : actCtl s.ctl a with
+  | ok c => rfl
+  | error e => obtain ⟨f, c⟩ := e; rfl
+
+theorem runActs_ctl (acts : List Viv.Gen.Act) (s : Sim) : ctlOf (runActs acts s) = runCtl acts s.ctl := by
+  induction acts generalizing s with
+  | nil => rfl
+  | cons a rest ih =>
+    simp only [runActs, runCtl]
+    have ha := act_ctl s a
+    cases h : act s a with
+    | ok s1 =>
+      rw [h] at ha
+      simp only [ctlOf] at ha
+      rw [← ha]
+      exact ih s1
+    | error e =>
+      obtain ⟨f, s1⟩ := e
+      rw [h] at ha
+      simp only [ctlOf] at ha
+      rw [← ha]
+      rfl
+
+theorem call_ctl (m : String) (s : Sim) : ctlOf (call m s) = callCtl m s.ctl := runActs_ctl _ s
+
+/-! ### requests from inside a listener: complete table over the four step events -/
+
+def stepEvents : List String := ["time_step__prepare", "time_step", "time_step__cleanup", "collect_metrics"]
+
+/-- a context resting in the main loop -/
+def running : Ctl := coherent "collect_metrics" []
+
+/-- every request a listener can make: a direct change to any state (or to a state that does not exist), any
+context method -/
+def allReqs : List Req := (states ++ ["nowhere"]).map Req.set ++ methods.map Req.call
+
+/-- the first state a context method asks for (loops expanded) -/
+def firstSet (m : String) : Option String :=
+  match (expand (skeletonOf m)).find? isSetAct with
+  | some (.set t) => some t
+  | _ => none
+
+/-- the request breaks the order when made in state `st`: its first state change is not a legal successor -/
+def breaksOrder (st : String) : Req → Bool
+  | .set t => !(states.contains t && validNext lifecycle st t)
+  | .call m =>
+    match firstSet m with
+    | some t => !validNext lifecycle st t
+    | none => false
+
+/-- the first request of every context method (what the oracle's FIRST_SET table must agree with) -/
+theorem first_set_table :
+    methods.map (fun m => (m, firstSet m)) =
+      [("setup", some "setup"), ("initialize_simulants", some "population_creation"),
+       ("step", some "time_step__prepare"), ("finalize", some "simulation_end"), ("report", some "report")] := by decide
+
+/-- `context_call_refused_unchanged_bare` looks at the literal head of the skeleton, which for `step` is the loop
+header; this is the same statement with the first state change of the EXPANDED body, so `step` is included:
+on a context driven by direct requests only, a method whose first state change is illegal changes nothing. -/
+theorem context_call_refused_unchanged_bare_all :
+    (states.all fun st => methods.all fun m =>
+      let c0 : Ctl := { st := st }
+      match firstSet m with
+      | some t =>
+        validNext lifecycle st t || (match callCtl m c0 with
+          | .ok _ => false
+          | .error (_, c) => c == c0)
+      | none => false) = true := by decide
+
+/-- which requests do NOT break the order inside each step event (the property's successor table again,
+now for requests made while the event is being delivered) -/
+theorem nested_legal_table :
+    stepEvents.map (fun e => (e, allReqs.filter (fun r => !breaksOrder e r))) =
+      [("time_step__prepare", [.set "time_step"]), ("time_step", [.set "time_step__cleanup"]),
+       ("time_step__cleanup", [.set "collect_metrics"]),
+       ("collect_metrics", [.set "time_step__prepare", .set "simulation_end", .call "step", .call "finalize"])] := by
+  decide
+
+/-- a request that breaks the order, made by a listener DURING any of the four step events, is refused,
+runs no listener and changes nothing: the step carries on and ends exactly as it would have without it
+(4 events × 16 requests). -/
+theorem nested_refused_noop :
+    (stepEvents.all fun e => allReqs.all fun r =>
+      !breaksOrder e r ||
+      (match callCtlN "step" (running, { ev := e, req := r }), callCtl "step" running with
+       | .ok (c, n), .ok c0 =>
+         n.done == some (false, e) && n.ev == "" &&
+         c.log == (stepEvents.flatMap fun x => if x = e then ["emit:" ++ x, marker false e] else ["emit:" ++ x]) &&
+         { c with log := c0.log } == c0
+       | _, _ => false)) = true := by decide
+
+/-- a listener that itself performs the NEXT legal state change makes the engine's own request for that state
+an illegal self-transition: the step aborts there, no further listener runs (prepare, step, cleanup). -/
+theorem nested_legal_set_blocks_engine :
+    ([("time_step__prepare", "time_step"), ("time_step", "time_step__cleanup"),
+      ("time_step__cleanup", "collect_metrics")].all fun (e, nx) =>
+      match callCtlN "step" (running, { ev := e, req := .set nx }) with
+      | .error (f, c, n) =>
+        f == .transition && c.st == nx && n.done == some (true, nx) &&
+        c.log == (stepEvents.takeWhile (· ≠ nx)).map ("emit:" ++ ·) ++ [marker true nx]
+      | .ok _ => false) = true := by decide
+
+/-- `finalize()` called by a collect_metrics listener is legal: simulation_end is emitted once, the step
+returns in simulation_end, after which `step` and `finalize` are refused and `report` is accepted. -/
+theorem nested_finalize_in_collect_metrics :
+    (match callCtlN "step" (running, { ev := "collect_metrics", req := .call "finalize" }) with
+     | .ok (c, n) =>
+       c.st == "simulation_end" && n.done == some (true, "simulation_end") &&
+       c.log == stepEvents.map ("emit:" ++ ·) ++ ["emit:simulation_end", marker true "simulation_end"] &&
+       (match callCtl "step" c with | .error (f, c') => f == .transition && c' == c | .ok _ => false) &&
+       (match callCtl "finalize" c with | .error (f, c') => f == .transition && c' == c | .ok _ => false) &&
+       (match callCtl "report" c with | .ok c' => c'.st == "report" | .error _ => false)
+     | .error _ => false) = true := by decide
+
+/-! ### `run_simulation` and the interactive entry points -/
+
+/-- `run_simulation()` requested anywhere but in `initialization` is refused at its first state change:
+no listener, nothing changed – for every number of loop iterations it would have taken. -/
+theorem run_simulation_refused (n : Nat) :
+    (states.all fun st => st == "initialization" ||
+      match runSimulationCtl n (coherent st ["<earlier>"]) with
+      | .ok _ => false
+      | .error (f, c) => f == .transition && c == coherent st ["<earlier>"]) = true := by
+  have h : (states.all fun st => st == "initialization" ||
+      callCtl "setup" (coherent st ["<earlier>"]) == .error (.transition, coherent st ["<earlier>"])) = true := by
+    decide
+  simp only [List.all_eq_true] at h ⊢
+  intro st hst
+  have := h st hst
+  simp only [Bool.or_eq_true, beq_iff_eq] at this ⊢
+  rcases this with e | hc
+  · exact Or.inl e
+  · right
+    simp [runSimulationCtl, hc]
+
+theorem step_from_loop (log : List String) (st : String)
+    (h : st = "population_creation" ∨ st = "collect_metrics") :
+    callCtl "step" { st := st, setupDone := true, created := true, frozen := true, log := log } =
+      .ok { st := "collect_metrics", setupDone := true, created := true, frozen := true,
+            log := log ++ ["emit:time_step__prepare"] ++ ["emit:time_step"] ++ ["emit:time_step__cleanup"] ++
+                   ["emit:collect_metrics"] } := by
+  rcases h with rfl | rfl <;> rfl
+
+theorem stepsCtl_loop (n : Nat) (log : List String) (st : String)
+    (h : st = "population_creation" ∨ st = "collect_metrics") :
+    ∃ log', stepsCtl (n + 1) { st := st, setupDone := true, created := true, frozen := true, log := log } =
+      .ok { st := "collect_metrics", setupDone := true, created := true, frozen := true, log := log' } := by
+  induction n generalizing log st with
+  | zero =>
+    exact ⟨log ++ ["emit:time_step__prepare"] ++ ["emit:time_step"] ++ ["emit:time_step__cleanup"] ++ ["emit:collect_metrics"],
+      by simp only [stepsCtl, step_from_loop log st h]⟩
+  | succ k ih =>
+    obtain ⟨log', h'⟩ := ih (log ++ ["emit:time_step__prepare"] ++ ["emit:time_step"] ++ ["emit:time_step__cleanup"] ++
+                   ["emit:collect_metrics"]) "collect_metrics" (Or.inr rfl)
+    refine ⟨log', ?_⟩
+    rw [stepsCtl, step_from_loop log st h]
+    exact h'
+
+/-- `run_simulation()` on a fresh context with at least one loop iteration goes all the way to `report`;
+with none (end = start) it is refused at `finalize` and rests in population_creation: simulation_end is not a
+legal successor of population_creation. -/
+theorem run_simulation_legal (n : Nat) :
+    (∃ c, runSimulationCtl (n + 1) { st := "initialization" } = .ok c ∧ c.st = "report") ∧
+    (∃ c, runSimulationCtl 0 { st := "initialization" } = .error (.transition, c) ∧ c.st = "population_creation") := by
+  constructor
+  · have h1 : callCtl "setup" { st := "initialization" } =
+        .ok { st := "post_setup", setupDone := true, frozen := true, log := ["setup_components", "emit:post_setup"] } := by decide
+    have h2 : callCtl "initialize_simulants" { st := "post_setup", setupDone := true, frozen := true, log := ["setup_components", "emit:post_setup"] } =
+        .ok { st := "population_creation", setupDone := true, created := true, frozen := true,
+              log := ["setup_components", "emit:post_setup", "create"] } := by decide
+    obtain ⟨log', h3⟩ := stepsCtl_loop n ["setup_components", "emit:post_setup", "create"] "population_creation" (Or.inl rfl)
+    have h4 : ∀ log : List String, ∃ c, (match callCtl "finalize" { st := "collect_metrics", setupDone := true, created := true, frozen := true, log := log } with
+        | Except.error e => (Except.error e : Except (Fail × Ctl) Ctl)
+        | Except.ok c => callCtl "report" c) = Except.ok c ∧ c.st = "report" := by
+      intro log; exact ⟨_, rfl, rfl⟩
+    obtain ⟨c, hc, hst⟩ := h4 log'
+    exact ⟨c, by simp only [runSimulationCtl, h1, h2, h3]; exact hc, hst⟩
+  · exact ⟨{ st := "population_creation", setupDone := true, created := true, frozen := true,
+             log := ["setup_components", "emit:post_setup", "create"] }, by decide, rfl⟩
+
+/-- on an `InteractiveContext`, whose `setup()` already creates the population, the wrapper's own
+`initialize_simulants()` is an illegal self-transition: `run_simulation()` is refused there, after setup and
+creation, resting in population_creation, from where stepping is legal. -/
+theorem interactive_run_simulation_refused :
+    (match runSimulation true 10 (init 0 1 3) with
+     | .error (f, s) =>
+       f == .transition && s.ctl.st == "population_creation" && s.clock == 0 &&
+       s.ctl.log == ["setup_components", "emit:post_setup", "create"] &&
+       (match call "step" s with | .ok s' => s'.ctl.st == "collect_metrics" && s'.clock == 1 | .error _ => false)
+     | .ok _ => false) = true := by decide
+
+/-- the interactive drives are step loops: from a running context `take_steps n`, `step(x)` and `run_until(t)`
+only ever pass through the four step states and rest in collect_metrics (instances; the general statement is
+`runCtl_reach`) -/
+theorem interactive_drives_rest_in_loop :
+    (match isetup (init 0 2 7) with
+     | .ok s =>
+       (match takeN 2 s with | .ok s' => s'.ctl.st == "collect_metrics" && s'.clock == 4 | .error _ => false) &&
+       (match stepWithSize 5 s with | .ok s' => s'.ctl.st == "collect_metrics" && s'.clock == 5 && s'.step == 2 | .error _ => false) &&
+       (match runUntil 100 5 s with | .ok s' => s'.ctl.st == "collect_metrics" && s'.clock == 6 && s'.stop == 7 | .error _ => false) &&
+       (match runUntil 100 0 s with | .ok s' => s' == s | .error _ => false) &&
+       (match takeN 0 s with | .ok s' => s' == s | .error _ => false)
+     | .error _ => false) = true := by decide
+
+/-- a component's `setup` or an initializer that raises leaves the context in the state the method had legally
+entered (`setup` / `population_creation`); `setup()` / `initialize_simulants()` cannot be repeated. -/
+theorem failure_in_setup_or_creation :
+    (match callCtl "setup" { st := "initialization", failOn := "setup_components" } with
+     | .error (f, c) => f == .other && c.st == "setup" && !c.setupDone && c.log == [] &&
+         (match callCtl "setup" c with | .error (f', c') => f' == .transition && c' == c | .ok _ => false)
+     | .ok _ => false) &&
+    (match callCtl "initialize_simulants" { (coherent "post_setup" []) with failOn := "create" } with
+     | .error (f, c) => f == .other && c.st == "population_creation" && c.log == [] &&
+         (match callCtl "initialize_simulants" c with | .error (f', c') => f' == .transition && c' == c | .ok _ => false)
+     | .ok _ => false) = true := by decide
+
+-- non-vacuity of the new general statements
+example : addPhase lifecycle ⟨"post", ["archive"], false⟩ =
+    some (lifecycle ++ [⟨"post", ["archive"], false⟩]) := by decide
+example : validNext (lifecycle ++ [⟨"post", ["archive"], false⟩]) "report" "archive" = true ∧
+    validNext lifecycle "report" "archive" = false := by decide
+example : Reach lifecycle "initialization" "post_setup" :=
+  .step (t := "setup") (.step (t := "initialization") (.refl _) (by decide) (by decide)) (by decide) (by decide)
+example : breaksOrder "time_step" (.call "step") = true ∧ breaksOrder "collect_metrics" (.call "step") = false := by decide
+
 end Viv.Props.C06
